@@ -294,8 +294,11 @@ class Sim:
         f = self.nq.sim.CliffordCircuit()
         for g in hist:
             getattr(f, g[0])(*g[1:])
-        R, S = f.to_symplectic_form()
-        return R.copy(), S.copy()
+        R, S = self.valid_tableau(f.to_symplectic_form())
+        m = dp.history_width(hist)
+        if R.shape != (2 * m,) or S.shape != (2 * m, 2 * m):
+            raise Violation('fresh_replay', 'to_symplectic_form', f'a brand-new circuit fed {list(hist)} returned a tableau of shape {R.shape},{S.shape} for {m} qubits')
+        return R, S
 
     # ---- running one SUT call with an optional fault ----
     def call(self, world, op, fn_on, circ, api):
@@ -516,6 +519,27 @@ class Sim:
             U = cand.U()
             return True if _close(Ux, U) else f'exported circuit unitary differs from the product of the recorded gates (max dev {float(np.abs(Ux - U).max()) if Ux.shape == U.shape else "shape"})'
         self.observe(c, 'statevector', 'to_universal_circuit', ok)
+        # "... equals U^dagger P U computed with the state-vector simulator": run the exported circuit on a caller-owned state,
+        # twice on the very same array (an expectation value <psi|P'|psi> re-uses psi after computing U psi)
+        n = self.cands[c][0].width
+        if n <= 6:
+            U = self.cands[c][0].U()
+            rs = np.random.Generator(np.random.PCG64(int(trace.digest(np.round(Ux, 6) + 0.0), 16) % (2 ** 32)))
+            psi = rs.normal(size=2 ** n) + 1j * rs.normal(size=2 ** n)
+            psi = psi / np.linalg.norm(psi)
+            keep = psi.copy()
+            try:
+                circ_u = circ.to_universal_circuit()
+                out1 = circ_u.apply_state(psi)
+                out2 = circ_u.apply_state(psi)
+            except Exception as e:
+                raise Violation('unexpected_exception', 'to_universal_circuit', f'{type(e).__name__}: {e}')
+            if not np.array_equal(psi, keep):
+                raise Violation('statevector', 'to_universal_circuit', 'applying the exported circuit modified the caller-owned state in place: a second use of the same state (as in <psi|U^dagger P U|psi>) sees another vector')
+            for o in (out1, out2):
+                if not (isinstance(o, np.ndarray) and _close(o, U @ keep)):
+                    raise Violation('statevector', 'to_universal_circuit', 'the exported circuit applied to a state vector is not U|psi>')
+            self.bump('exported_circuit_state_runs')
         return True
 
     def do_nq(self, world, op, c, circ):
